@@ -252,7 +252,7 @@ def session_step(tier, scope):
     """Whole-API sessions (state carried across calls) validated against Library.tla, judging only the clauses
     of one property (Trace_Library's Scope)."""
     return {"type": "i2s", "name": "sessions, scope " + scope, "spec": "Trace_Library", "cfg": "Trace_Library_" + scope,
-            "cmd": ["drive", "session", "{seed}", q(tier, 300, 3000), "{trace}"],
+            "cmd": ["drive", "session", "{seed}", q(tier, 240, 3000), "{trace}"],
             "min_tally": {"scalar": [500, 0, 0, 0], "derive": [500, 0, 0, 0], "integrate": [500, 0, 5, 0], "combine": [500, 0, 0, 10]}.get(scope, [0, 60, 0, 0])}
 
 
